@@ -67,10 +67,13 @@ const (
 	namNearMiss         // ids [E+"x", E minus last byte, E in other case]
 	namBadUTF8          // ids [E, not UTF-8]: utils.ReceptorNames fails on it
 	namCaseFold         // ids: every spelling of E that differs from E ONLY by letter case / Unicode simple case folding
+	namBlankIDs         // ids ["", " "]: a certificate that really names the empty and the one-blank node ID
 	nNames
 )
 
-var namesName = []string{"expected", "other", "several", "none", "dns-only", "dns-other", "several-without", "near-miss", "bad-utf8", "case-fold"}
+var namesName = []string{"expected", "other", "several", "none", "dns-only", "dns-other", "several-without", "near-miss", "bad-utf8", "case-fold", "blank-ids"}
+
+const leafCN = "leaf" // subject common name of every leaf: never a receptor name
 
 type authority struct {
 	cert *x509.Certificate
@@ -246,15 +249,17 @@ func (p *pki) idsAndDNS(cp certParams) (ids, dns []string, hasSAN bool) {
 		return ids, []string{cp.D + "x", "x" + cp.D}, true
 	case namBadUTF8:
 		return []string{cp.E, "bad\xff"}, []string{cp.D}, true
-	default: // namCaseFold
+	case namCaseFold:
 		return foldVariants(cp.E), []string{cp.D}, true
+	default: // namBlankIDs
+		return []string{"", " "}, []string{cp.D}, true
 	}
 }
 
 func (p *pki) make(cp certParams) *certCase {
 	ids, dns, hasSAN := p.idsAndDNS(cp)
 	tpl := &x509.Certificate{
-		SerialNumber: p.nextSerial(), Subject: pkix.Name{CommonName: "leaf"},
+		SerialNumber: p.nextSerial(), Subject: pkix.Name{CommonName: leafCN},
 		KeyUsage: x509.KeyUsageDigitalSignature | x509.KeyUsageKeyEncipherment,
 	}
 	switch cp.Window {
